@@ -229,6 +229,48 @@ func runC03(r *Run) {
 			}
 			return false, false
 		}, boolCallEdges(ed, "IsReCheckTx"), next, "next only where the signature's sequence equals the account sequence", "the EIP-712 route accepts a signature whose sequence differs from the account sequence (replay)")
+		// exactly one signer: VerifySignature and the sequence comparison look at signature/signer 0 only, so next is
+		// reachable only where len(signatures) == 1 and len(signatures) == len(signers)
+		isLenOfCall := func(v ssa.Value, names ...string) bool {
+			c, ok := stripValue(v).(*ssa.Call)
+			if !ok {
+				return false
+			}
+			b, ok := c.Call.Value.(*ssa.Builtin)
+			if !ok || b.Name() != "len" {
+				return false
+			}
+			return backSlice(c.Call.Args[0]).HasCall(func(ci CallInfo) bool {
+				for _, n := range names {
+					if ci.Name == n {
+						return true
+					}
+				}
+				return false
+			})
+		}
+		requireGuard(r, "R4", fnID(ed)+"#single-signature", ed, func(cond ssa.Value) (bool, bool) {
+			b, ok := cond.(*ssa.BinOp)
+			if !ok || (b.Op != token.NEQ && b.Op != token.EQL) {
+				return false, false
+			}
+			for _, pr := range [][2]ssa.Value{{b.X, b.Y}, {b.Y, b.X}} {
+				if n, ok := constInt(pr[1]); ok && n == 1 && isLenOfCall(pr[0], "GetSignaturesV2") {
+					return b.Op == token.EQL, true
+				}
+			}
+			return false, false
+		}, boolCallEdges(ed, "IsReCheckTx"), next, "next only where the transaction carries exactly one signature (bypass: recheck)", "the EIP-712 route reaches the next decorator with a number of signatures other than one: only signature 0 is verified and only signer 0's sequence is compared, so a second signer's messages run unauthenticated")
+		requireGuard(r, "R4", fnID(ed)+"#signatures-match-signers", ed, func(cond ssa.Value) (bool, bool) {
+			b, ok := cond.(*ssa.BinOp)
+			if !ok || (b.Op != token.NEQ && b.Op != token.EQL) {
+				return false, false
+			}
+			if (isLenOfCall(b.X, "GetSignaturesV2") && isLenOfCall(b.Y, "GetSigners")) || (isLenOfCall(b.Y, "GetSignaturesV2") && isLenOfCall(b.X, "GetSigners")) {
+				return b.Op == token.EQL, true
+			}
+			return false, false
+		}, boolCallEdges(ed, "IsReCheckTx"), next, "next only where the number of signatures equals the number of signers (bypass: recheck)", "the EIP-712 route no longer requires as many signatures as signers: a transaction naming a second signer is accepted on the first signer's signature alone")
 		if vcall != nil {
 			sd := backSlice(argN(vcall, 1))
 			okSD := sd.HasCall(func(ci CallInfo) bool { return ci.Name == "ChainID" }) && sd.HasCall(func(ci CallInfo) bool { return ci.Name == "GetSequence" }) && sd.HasCall(func(ci CallInfo) bool { return ci.Name == "GetAccountNumber" })
@@ -417,6 +459,88 @@ func runC03(r *Run) {
 	}
 
 	// ---------- R8: the sequence the ante handler advanced is never moved backwards ----------
+	r.Rule("R9", "PATH.sequence-survives-replacement: in consensus scope a freshly constructed base account (authtypes.NewBaseAccountWithAddress / NewBaseAccount / ProtoBaseAccount: sequence 0) is used to build an account object only over the edge on which the address had no account (GetAccount(…) == nil); converting an existing account reuses its own BaseAccount — a replaced account whose sequence restarts at 0 accepts its old signed transactions again")
+	{
+		sc := scopesOf(r)
+		nFresh := 0
+		for _, fn := range sc.S.HaqqFuncs() {
+			if isTestSupport(P, fn) || isGeneratedFile(P.FileOf(fnPos(fn))) {
+				continue
+			}
+			var fresh []*ssa.Call
+			eachInstr(fn, func(in ssa.Instruction) {
+				if c, ok := in.(*ssa.Call); ok {
+					ci := callInfo(c)
+					if pathHasSuffix(ci.PkgPath, "x/auth/types") && (ci.Name == "NewBaseAccountWithAddress" || ci.Name == "NewBaseAccount" || ci.Name == "ProtoBaseAccount") {
+						fresh = append(fresh, c)
+					}
+				}
+			})
+			if len(fresh) == 0 {
+				continue
+			}
+			noAcc, _ := condEdges(fn, func(x, y ssa.Value) bool {
+				return isNilConst(y) && backSlice(x).HasCall(func(ci CallInfo) bool { return ci.Name == "GetAccount" })
+			})
+			for i, fc := range fresh {
+				nFresh++
+				// uses: calls that receive the fresh base account (the value itself, through phis / interface
+				// conversions / a local variable) as an argument
+				var uses []ssa.Instruction
+				seenV := map[ssa.Value]bool{}
+				var follow func(v ssa.Value)
+				follow = func(v ssa.Value) {
+					if seenV[v] || v.Referrers() == nil {
+						return
+					}
+					seenV[v] = true
+					for _, ref := range *v.Referrers() {
+						switch x := ref.(type) {
+						case ssa.CallInstruction:
+							if ref != ssa.Instruction(fc) {
+								uses = append(uses, ref)
+							}
+						case *ssa.Phi:
+							follow(x)
+						case *ssa.MakeInterface:
+							follow(x)
+						case *ssa.ChangeType:
+							follow(x)
+						case *ssa.ChangeInterface:
+							follow(x)
+						case *ssa.Store:
+							if al, ok := x.Addr.(*ssa.Alloc); ok && x.Val == v {
+								for _, r2 := range *al.Referrers() {
+									if u, ok := r2.(*ssa.UnOp); ok {
+										follow(u)
+									}
+								}
+							}
+						}
+					}
+				}
+				follow(fc)
+				isUse := func(in ssa.Instruction) bool {
+					for _, u := range uses {
+						if u == in {
+							return true
+						}
+					}
+					return false
+				}
+				inst := fmt.Sprintf("%s#fresh-base-account-%d", fnID(fn), i+1)
+				if len(noAcc) == 0 {
+					r.Bad("R9", inst, P.Pos(instrPos(fc)), "a fresh base account is built in a function that never tests whether the address already has an account")
+					continue
+				}
+				w := PathQuery{Fn: fn, Target: isUse, DelEdge: edgeSet(noAcc)}.Search()
+				r.Check(w == nil, "R9", inst, P.Pos(instrPos(fc)), "used only where the address had no account",
+					"a freshly constructed base account (sequence 0) can be used to build the account object of an address that already has an account: the stored account loses its sequence, and every transaction the account ever signed becomes valid again", P.witness(w)...)
+			}
+		}
+		r.Count("R9 fresh base accounts built in consensus scope", nFresh)
+		r.Floor("R9", "fresh base accounts built in consensus scope", nFresh, 2)
+	}
 	r.Rule("R8", "OWN/FLOW.nonce-not-rewound: the ante handler advances the sender's sequence once per Ethereum message (R3); any other consensus-scope write of an account nonce outside x/evm/statedb — StateDB.SetNonce from keeper code — is either a temporary reset that is followed on every path by another SetNonce, or its value depends on the nonce found before (GetNonce), so that it cannot fall behind what the ante handler set (a batch [create n, call n+1] otherwise ends at n+1 and the call can be executed again)")
 	nSet := 0
 	for _, fn := range scopesOf(r).S.HaqqFuncs() {
